@@ -388,6 +388,11 @@ def run(ctx):
     from checks.c10 import load
 
     prog, S, M = load(ctx.repo)
+
+    from sa.xmlchemy_model import ALL_PARTS, mechanism_gate  # noqa: F401
+
+
+    mechanism_gate(ctx, M, ("attr",))
     T = Types(prog, M)
     ctx.level = "other"
     ctx.trusted = ["CPython ast", "recognised fresh-value idioms (listed per allocator in the evidence)"]
